@@ -1,0 +1,40 @@
+// Package verifhook provides event points for the verification harness.
+// With the build tag "verif" off, Event is an empty function and Tick
+// returns a nil channel, so none of the call sites has any effect.
+package verifhook
+
+// Event points.
+const (
+	HmReq         = iota + 1 // heapManager.run: cmd, data, heap length, sync flag, cached length
+	HmIter                   // unordered iteration is about to offer a bar
+	HmIterDrop               // ... and was dropped instead
+	HmPop                    // ordered iteration popped a bar and is about to offer it: bar, priority
+	HmPopDrop                // ... dropped, the bar is pushed back
+	CtDelayEnd               // render delay is over
+	CtOp                     // container is about to run an operation closure
+	CtIO                     // container is about to run a write closure
+	CtRenderErr              // render returned an error: message
+	CtDone                   // container saw done: error latched?
+	CtExit                   // container goroutine returns
+	CtAdd                    // bar created: bar, id, priority, total, queued-after, rm, noPop, trigger
+	CtRenderBegin            // render cycle begins
+	CtRenderSize             // width, height, terminal?, error?
+	CtFlushBar               // flush received a bar's frame: bar, shutdown, rows, used rows, rm, noPop, error?
+	CtFrame                  // about to flush: rows, popCount
+	LsDone                   // refresh listener closes done
+	BarOp                    // bar goroutine executed a closure: bar, current, total, refill, trigger, aborted, rm, shutdown
+	BarExit                  // bar goroutine exits: bar, current, total, aborted
+	BarRender                // render closure starts: bar, current, total, refill, aborted, completed, shutdown, width
+	BarTrigger               // triggerCompletion: bar, autoRefresh
+	EarlyDecide              // early refresh decision: bar, other running bars
+	EarlyReq                 // early refresh sent a render request: bar
+	EarlyExit                // early refresh goroutine returns: bar
+	WcSent                   // WC.Format sent its width: channel, width
+	WcGot                    // WC.Format received the column width: channel, width
+	DistCollected            // width distributor collected its column: column, max
+	DistDrop                 // width distributor abandoned: column
+	DistDone                 // width distributor finished distributing: column
+	PushDirect               // heap push accepted by the queue: bar, sync
+	PushDetached             // heap push handed to a goroutine: bar, sync
+	PushSend                 // detached push goroutine is about to send: bar
+)
